@@ -73,7 +73,10 @@ func NewClientDnsConnection(topDomain string, communicator ClientCommunicator) (
 			Upstream: util.UpstreamConfig{
 				FragmentSize: DefaultUpstreamMtuSize,
 			},
-			Downstream: util.DownstreamConfig{},
+			// Until another codec has been negotiated the server answers in Base32
+			Downstream: util.DownstreamConfig{
+				Encoder: enc.Base32Encoding,
+			},
 		},
 	}
 	client.out.OnChunkAdded = client.outChunkAdded
@@ -257,7 +260,11 @@ func (dc *ClientDnsConnection) VersionHandshake() (err error) {
 			ClientVersion: dc.protocolVersion,
 		}, time.Second*time.Duration(i))
 		if err == nil {
-			response := resp.(*commands.VersionResponse)
+			response, ok := resp.(*commands.VersionResponse)
+			if !ok {
+				err = errors.Errorf("Invalid response -- expected VersionResponse: %v", resp)
+				continue
+			}
 			dc.userId = response.UserId
 
 			log.Debugf("Version ok, both using protocol v 0x%08x. You are user #%d", ProtocolVersion, dc.userId)
